@@ -73,6 +73,14 @@ fn bases() -> Vec<BaseCase> {
             r.set_header("content-length", &wire.len().to_string());
             v.push(BaseCase { kind: "buffered-xml/chunk-signed", req: r, body: wire, first_line: 0, cuts_from: 0 });
         }
+        {
+            // the same with the whole document in ONE data chunk (the first decoded piece is then already the declared length)
+            let mut r = Req::new("PUT", "/bkt/k?tagging").header("host", HOST).header("content-encoding", "aws-chunked").header("x-amz-decoded-content-length", &body.len().to_string());
+            let seed = sign_v4_header(&mut r, SK, &scope, DATE, "STREAMING-AWS4-HMAC-SHA256-PAYLOAD", &["content-encoding", "x-amz-decoded-content-length"]);
+            let wire: Vec<u8> = encode_chunks(SK, &scope, DATE, &seed, &[body.clone()]).iter().flat_map(|c| c.bytes()).collect();
+            r.set_header("content-length", &wire.len().to_string());
+            v.push(BaseCase { kind: "buffered-xml/chunk-signed-one-chunk", req: r, body: wire, first_line: 0, cuts_from: 0 });
+        }
     }
     // (3) chunk-signed upload, 3 data chunks + final
     {
@@ -111,6 +119,56 @@ fn bases() -> Vec<BaseCase> {
             let cuts_from = body.len().saturating_sub(tail).max(1);
             v.push(BaseCase { kind, req: r, body, first_line: g.boundary.len() + 4, cuts_from });
         }
+    }
+    // (5) FAULTY requests: the outcome of a request that must fail is as independent of the framing as that of one that
+    // succeeds (a check that only runs when a particular frame boundary makes the code look is a check that can be framed
+    // away). Derived from the bases above: the signed final chunk corrupted / missing, a data chunk corrupted, the form cut
+    // before its closing delimiter, a signed digest that is not the body's.
+    {
+        let flip_last_sig = |wire: &[u8]| -> Vec<u8> {
+            let mut w = wire.to_vec();
+            let pat = b"chunk-signature=";
+            if let Some(p) = w.windows(pat.len()).rposition(|x| x == pat) {
+                let i = p + pat.len();
+                w[i] = if w[i] == b'0' { b'1' } else { b'0' };
+            }
+            w
+        };
+        let drop_final_chunk = |wire: &[u8]| -> Vec<u8> {
+            let pat = b"0;chunk-signature=";
+            match wire.windows(pat.len()).rposition(|x| x == pat) {
+                Some(p) => wire[..p].to_vec(),
+                None => wire.to_vec(),
+            }
+        };
+        let flip_first_data_byte = |wire: &[u8]| -> Vec<u8> {
+            let mut w = wire.to_vec();
+            if let Some(p) = w.windows(2).position(|x| x == b"\r\n") {
+                if p + 2 < w.len() {
+                    w[p + 2] ^= 1;
+                }
+            }
+            w
+        };
+        let mut faulty: Vec<BaseCase> = Vec::new();
+        for b in &v {
+            let variants: Vec<(&'static str, Vec<u8>)> = match b.kind {
+                "buffered-xml/chunk-signed" => vec![("buffered-xml/chunk-signed/faulty-final-chunk-signature", flip_last_sig(&b.body)), ("buffered-xml/chunk-signed/faulty-final-chunk-missing", drop_final_chunk(&b.body)), ("buffered-xml/chunk-signed/faulty-first-chunk-data", flip_first_data_byte(&b.body))],
+                "buffered-xml/chunk-signed-one-chunk" => vec![("buffered-xml/chunk-signed-one-chunk/faulty-final-chunk-signature", flip_last_sig(&b.body)), ("buffered-xml/chunk-signed-one-chunk/faulty-final-chunk-missing", drop_final_chunk(&b.body))],
+                "chunk-signed-upload" => vec![("chunk-signed-upload/faulty-final-chunk-signature", flip_last_sig(&b.body)), ("chunk-signed-upload/faulty-final-chunk-missing", drop_final_chunk(&b.body)), ("chunk-signed-upload/faulty-first-chunk-data", flip_first_data_byte(&b.body))],
+                "post-form" => vec![("post-form/faulty-cut-before-the-closing-delimiter", b.body[..b.body.len() - 14].to_vec())],
+                "digest-signed-put" => vec![("digest-signed-put/faulty-body-is-not-the-signed-one", { let mut w = b.body.clone(); if let Some(x) = w.last_mut() { *x ^= 1; } w })],
+                _ => vec![],
+            };
+            for (kind, body) in variants {
+                let mut req = b.req.clone();
+                if req.get_header("content-length").is_some() {
+                    req.set_header("content-length", &body.len().to_string());
+                }
+                faulty.push(BaseCase { kind, req, body, first_line: b.first_line, cuts_from: 0 });
+            }
+        }
+        v.extend(faulty);
     }
     v
 }
@@ -262,7 +320,13 @@ pub fn run(ctx: &Ctx) -> (Acc, Report) {
         }
         // self-check of the harness: every base request is an honest one - delivered to the backend and answered 2xx
         // (recorded, not fatal: a changed tree may refuse an honest request - that is for the checks of acceptance to report)
-        if want.starts_with("200|") || want.starts_with("204|") {
+        if b.kind.contains("/faulty-") {
+            if want.starts_with("200|") || want.starts_with("204|") {
+                acc.count(&format!("FAULTY BASE REQUEST ANSWERED 2xx (C08 / C05 / C10 judge that): {}", b.kind), 1);
+            } else {
+                acc.count("faulty_base_requests_confirmed_refused_under_the_default_schedule", 1);
+            }
+        } else if want.starts_with("200|") || want.starts_with("204|") {
             acc.count("base_requests_confirmed_honest(delivered and answered 2xx)", 1);
         } else {
             acc.count(&format!("BASE REQUEST NOT ANSWERED 2xx: {}: {}", b.kind, want.chars().take(80).collect::<String>()), 1);
@@ -333,7 +397,7 @@ pub fn run(ctx: &Ctx) -> (Acc, Report) {
     let states = acc.evals;
     let rep = Report {
         level: "model_checking",
-        rule: format!("8 request kinds (streamed PUT 16 B with unsigned and with digest-signed payload, buffered XML with digest-signed / unsigned / presigned / chunk-signed payload, chunk-signed upload, POST form with CR/LF runs and delimiter prefixes in the file) + 8 variants of the form whose file ends in CR/LF shapes (cut points from the file part on); every transport schedule with at most {k} deviations from the default (deviation = a cut point of the body, an empty frame, or a Pending-then-wake inserted before any frame or before end-of-stream), plus the all-1-byte partition with and without Pending everywhere and every uniform partition into frames of 2..96 bytes; each schedule is one complete execution of the real S3Service::call, compared with the default schedule. Distinct by schedule id."),
+        rule: format!("9 request kinds (streamed PUT 16 B with unsigned and with digest-signed payload, buffered XML with digest-signed / unsigned / presigned / chunk-signed (two chunks, one chunk) payload, chunk-signed upload, POST form with CR/LF runs and delimiter prefixes in the file) + 8 variants of the form whose file ends in CR/LF shapes (cut points from the file part on) + 10 FAULTY requests derived from them (signed final chunk corrupted / missing, a data chunk corrupted - for the streamed and for the buffered chunk-signed body -, the form cut before its closing delimiter, a body that is not the digest-signed one); every transport schedule with at most {k} deviations from the default (deviation = a cut point of the body, an empty frame, or a Pending-then-wake inserted before any frame or before end-of-stream), plus the all-1-byte partition with and without Pending everywhere and every uniform partition into frames of 2..96 bytes; each schedule is one complete execution of the real S3Service::call, compared with the default schedule. Distinct by schedule id."),
         exhaustive: true,
         extra: json!({
             "states": states, "transitions": transitions.max(1), "traces_validated_against_impl": states,
